@@ -181,3 +181,23 @@ package dns64
 //@   assert at return#1: !result && len(exclusions) == 0
 //@   assert at return#2: result && lastret("(*net.IPNet).Contains")
 //@   assert at return#3: !result && calls("(*net.IPNet).Contains") == len(exclusions)
+
+//@ # ---- C20 ("reversible ... maps back to the same IPv4 address"): an address synthesised under the longer of two
+//@ # nested prefixes is an embedding of ANOTHER IPv4 address under the shorter one. The compiled configuration
+//@ # therefore never holds two prefixes one of which contains the other's network address: a prefix joins the list
+//@ # only if no earlier accepted prefix overlaps it (and it passed validatePrefix)
+//@ func compileConfig
+//@   abstract
+//@   nosafety all pre
+//@   assert at append#1: lastret("middleware/dns64.overlappingPrefix") == nil && lastret("middleware/dns64.validatePrefix") == nil && lastret("net.ParseCIDR", 2) == nil
+//@   assert at call middleware/dns64.overlappingPrefix#1: arg0 == out.prefixes && arg1 == p
+//@
+//@ func overlappingPrefix
+//@   abstract
+//@   nosafety all pre
+//@   loop 1 invariant true
+//@   assert at return#1: result == a.net && (lastret("(*net.IPNet).Contains#1") || lastret("(*net.IPNet).Contains#2"))
+//@   assert at call (*net.IPNet).Contains#1: arg0 == a.net && arg1 == p.IP
+//@   assert at call (*net.IPNet).Contains#2: arg0 == p && arg1 == a.net.IP && !lastret("(*net.IPNet).Contains#1")
+//@   assert at return#2: result == nil && exhausted(1)
+
